@@ -2,8 +2,8 @@
 (* Code -> spec for property C14: the result of parsing a line's markup is a  *)
 (* function of that line alone.                                               *)
 (*                                                                            *)
-(* trace.ndjson: a header [ev |-> "header", nlines |-> N] followed by one     *)
-(* event per call                                                             *)
+(* trace.ndjson: batches, each a header [ev |-> "header", b, nlines |-> N]    *)
+(* (line ids are local to a batch: 1..N) followed by one event per call       *)
 (*   [ev |-> "parse", h, p |-> "fresh"|"reused"|"runner", line |-> id in 1..N,*)
 (*    outcome, got |-> [ok, text, attrs |-> <<[name, pos, len, src, props,    *)
 (*    tfa]...>>]]                                                             *)
@@ -16,12 +16,10 @@
 EXTENDS Integers, Sequences, FiniteSets, TLC, Json
 
 Trace == ndJsonDeserialize("trace.ndjson")
-N == Trace[1].nlines
-
 VARIABLES l, memo, bad, nchk
 vars == <<l, memo, bad, nchk>>
 
-Init == l = 2 /\ memo = [i \in 1..N |-> <<>>] /\ bad = <<>> /\ nchk = 0
+Init == l = 1 /\ memo = <<>> /\ bad = <<>> /\ nchk = 0
 
 ToSet(s) == {s[i] : i \in DOMAIN s}
 Count(s, x) == Cardinality({i \in DOMAIN s : s[i] = x})
@@ -34,7 +32,10 @@ Same(r1, r2) == r1.outcome = r2.outcome /\ r1.text = r2.text /\ SameBag(r1.attrs
 Step ==
   /\ l <= Len(Trace)
   /\ l' = l + 1
-  /\ LET e == Trace[l]  r == Res(e) IN
+  /\ IF Trace[l].ev = "header"
+     THEN memo' = [i \in 1..Trace[l].nlines |-> <<>>] /\ UNCHANGED <<bad, nchk>>
+     ELSE
+     LET e == Trace[l]  r == Res(e) IN
      IF memo[e.line] = <<>>
      THEN \* first sight of this line: must be on a fresh parser (the recorder's order)
           /\ memo' = [memo EXCEPT ![e.line] = <<r, l>>]
@@ -49,5 +50,5 @@ Spec == Init /\ [][Step]_vars
 
 Done == (l = Len(Trace) + 1) =>
           PrintT(<<"RESULT", ToJson([bad |-> bad, checked |-> nchk, lines |-> l - 1])>>)
-Accepted == TLCGet("stats").diameter = Len(Trace)
+Accepted == TLCGet("stats").diameter - 1 = Len(Trace)
 =============================================================================
